@@ -94,7 +94,7 @@ class NodeSelectorParser(object):
         raise ValueError("URI not well formed or with an unknown prefix: " + token)
 
     def _unprefix_uri(self, prefix, uri):
-        return uri.replace(prefix + ":", self._prefix_namespace_dict[prefix])
+        return uri.replace(prefix + ":", self._prefix_namespace_dict[prefix], 1)  # the prefix only, not a later "prefix:" inside the local name
 
     def _parse_sparql_expression(self, raw_selector):
         raw_string = raw_selector.replace("SPARQL", "")
